@@ -20,6 +20,8 @@ mod sym;
 mod c09;
 mod c03;
 mod c14;
+mod c15;
+mod c06;
 mod c19;
 
 fn main() {
@@ -53,6 +55,7 @@ fn main() {
         ["c03", "record", runs, path] => c03::record(runs.parse().unwrap(), path),
         ["c14", "table", path] => c14::table(path),
         ["c14", "noncodes", n, path] => c14::noncodes(n.parse().unwrap(), path),
+        ["c06", "record", runs, path] => c06::record(runs.parse().unwrap(), path),
         _ => {
             eprintln!("usage: vh <prop> <replay|record> ...");
             std::process::exit(2);
